@@ -280,6 +280,13 @@ CLAIMED["C17"] = dict(
 NOT_YET = "check not built yet in this revision (planned: see DESIGN.md section 6); not claimed until its theorem and correspondence suite exist"
 
 
+TIE_NOTE = (" The model's tables for this property are regenerated from /repo's working tree on every run by tools/extract.py "
+            "(lean/Generated/Facts.lean) and pinned to the model by the theorems of Props/%sTie.lean.")
+for _pid in ("C05", "C10", "C14", "C16", "C17"):
+    CLAIMED[_pid]["text"] += TIE_NOTE % _pid
+    CLAIMED[_pid]["technique"] += " + generated-table tie (translator)"
+
+
 def main():
     checks = []
     na = []
@@ -302,7 +309,7 @@ def main():
             na.append({"property_id": pid, "reason": NA.get(pid, NOT_YET)})
     man = {
         "version": 1,
-        "setup_cmd": "cd lean && lake build",
+        "setup_cmd": "/venv/bin/python tools/extract.py; cd lean && lake build",
         "hooks": {
             "guard": "CSVPATH_VERIF",
             "enable": "no hooks in /repo: the harness instruments the real code in-process (monkeypatching from harness/real_run.py); "
@@ -314,7 +321,7 @@ def main():
         "engines": [
             {"name": "lean-model+harness", "path": "/verif/lean, /verif/harness, /verif/verify",
              "serves_properties": sorted(CLAIMED),
-             "kind_free_text": "Lean 4 model + theorems (lake build, #print axioms audit) tied to /repo by a differential correspondence harness driving the real code in-process and a compiled Lean driver over a JSON line protocol"}
+             "kind_free_text": "Lean 4 model + theorems (lake build, #print axioms audit) tied to /repo by a differential correspondence harness driving the real code in-process and a compiled Lean driver over a JSON line protocol, plus a translator (tools/extract.py) that regenerates the model's tables from the source on every run"}
         ],
         "checks": checks,
         "not_applicable": na,
